@@ -88,6 +88,31 @@ func (j job) run() string {
 	return b.String()
 }
 
+// drawTwinJob draws from a deliberately small family of inputs: the same few bytes of prefix, then a
+// double-quoted string, backquote string or heredoc assembled from a tiny alphabet of escape-relevant
+// pieces. Members of the family agree in most offsets and differ in what stands there, so state that
+// a recycled lexer or parser keeps per offset, per length or per prefix (memo tables, line tables,
+// stacks) and forgets to reset meets an input on which it is wrong.
+func drawTwinJob(rt *rapid.T) job {
+	v := rapid.SampledFrom([]px.Ver{px.V56, px.V72, px.V74}).Draw(rt, "version")
+	open, cls := "\"", "\";"
+	switch rapid.IntRange(0, 3).Draw(rt, "ctx") {
+	case 0:
+		open, cls = "`", "`;"
+	case 1:
+		open, cls = "<<<A\n", "\nA;\n"
+	}
+	b := []byte("<?php $a = " + open)
+	for i, n := 0, rapid.IntRange(1, 6).Draw(rt, "pieces"); i < n; i++ {
+		b = append(b, rapid.SampledFrom([]string{"\\", "\\\\", "$b", "x", ",", "\\\"", "\\$", "{$c}", "\n", " ", "${d}", "$b[0]", "$b->e", "{", "$"}).Draw(rt, "piece")...)
+	}
+	b = append(b, cls...)
+	if rapid.IntRange(0, 3).Draw(rt, "tail") == 0 {
+		b = append(b, " echo 'y\\'', \"z\";\n"...)
+	}
+	return job{src: b, ver: v, pipe: rapid.IntRange(0, 31).Draw(rt, "pipeline"), nocb: rapid.IntRange(0, 3).Draw(rt, "handler") == 0}
+}
+
 func drawJob(rt *rapid.T) job {
 	v := rapid.SampledFrom(px.AllVersions).Draw(rt, "version")
 	var src []byte
@@ -111,8 +136,13 @@ func TestConcurrentPipelines(t *testing.T) {
 	harness.Check(t, "concurrent-pipelines", 120, 8000, func(rt *rapid.T) {
 		n := rapid.IntRange(8, 40).Draw(rt, "jobs")
 		jobs := make([]job, n)
+		twins := rapid.IntRange(0, 3).Draw(rt, "twins") == 0
 		for i := range jobs {
-			jobs[i] = drawJob(rt)
+			if twins {
+				jobs[i] = drawTwinJob(rt)
+			} else {
+				jobs[i] = drawJob(rt)
+			}
 		}
 		workers := rapid.IntRange(2, 32).Draw(rt, "goroutines")
 		// sequential reference, then the same jobs on the goroutines behind a start barrier
@@ -188,9 +218,17 @@ func TestParseHistory(t *testing.T) {
 	harness.Check(t, "parse-history", 600, 60000, func(rt *rapid.T) {
 		n := rapid.IntRange(2, 5).Draw(rt, "jobs")
 		jobs := make([]job, n)
+		twins := rapid.IntRange(0, 2).Draw(rt, "twins") == 0
 		for i := range jobs {
-			jobs[i] = drawJob(rt)
+			if twins {
+				jobs[i] = drawTwinJob(rt)
+			} else {
+				jobs[i] = drawJob(rt)
+			}
 			jobs[i].pipe = 0
+		}
+		if twins {
+			harness.Class("parse-history:twin-inputs")
 		}
 		type kept struct {
 			res  string
